@@ -366,6 +366,39 @@ std::string hx_run(const std::string &line, std::string &oracle)
             run_oracle(q, ans, e, stmts, line, oracle);
         return tri_str(ans);
     }
+    if (nodes.size() == 3 && nodes[0].atom == "poly") {
+        set_basic vars;
+        for (size_t k = 1; k < nodes[1].kids.size(); k++)
+            vars.insert(vsexp::build(nodes[1].kids[k]));
+        RCP<const Basic> e = vsexp::build(nodes[2]);
+        bool ans = is_polynomial(*e, vars);
+        stat(ans ? "polynomial-true" : "polynomial-false");
+        if (ans && line.size() < 500) {
+            // oracle: a polynomial in x has a vanishing derivative of some order (degrees are small here)
+            set_basic xs = vars.empty() ? free_symbols(*e) : vars;
+            for (auto &x : xs) {
+                if (!is_a<Symbol>(*x))
+                    continue;
+                RCP<const Basic> d = e;
+                bool zero = false;
+                try {
+                    for (int i = 0; i < 16 && !zero; i++) {
+                        d = expand(d->diff(rcp_static_cast<const Symbol>(x)));
+                        zero = eq(*d, *integer(0));
+                    }
+                } catch (const std::exception &) {
+                    zero = true; // not differentiable here: no verdict
+                }
+                if (!zero) {
+                    oracle = "FAIL:polynomial:is_polynomial answered true but the 16th derivative with respect to "
+                             + x->__str__() + " is not zero";
+                    break;
+                }
+            }
+            stat("polynomial-oracle-checked");
+        }
+        return ans ? "T" : "F";
+    }
     throw std::runtime_error("bad op");
 }
 
@@ -606,7 +639,7 @@ static RCP<const Basic> targeted(Rng &r, const vgen::Opts &o)
 void hx_gen(Rng &rng, const std::string &tier)
 {
     bool thorough = tier == "thorough";
-    int n = thorough ? 60000 : 4000;
+    int n = thorough ? 30000 : 4000;
     vgen::Opts o;
     o.rationals = true;
     o.gaussian = true;
@@ -664,7 +697,72 @@ void hx_gen(Rng &rng, const std::string &tier)
         } catch (const std::exception &) {
             continue;
         }
-        const std::string &q = QUERIES[rng.below(15)]; // even/odd are generated by their own family below
+        if (tag != "trivial-logic" && rng.coin(1, 12)) {
+            // is_polynomial with a random variable set (empty = all symbols)
+            std::string vs = "(V";
+            if (rng.coin(2, 3))
+                for (int s = 0; s < 3; s++)
+                    if (rng.coin())
+                        vs += " " + vsexp::dump(*S(s));
+            RCP<const Basic> pe = e;
+            if (rng.coin()) {
+                // polynomial-looking shapes: sums of products of integer powers, sometimes with a spoiler
+                vec_basic terms;
+                int nt = 1 + (int)rng.below(3);
+                for (int t = 0; t < nt; t++) {
+                    RCP<const Basic> m = integer(rng.range(1, 5));
+                    int nf = 1 + (int)rng.below(3);
+                    for (int f = 0; f < nf; f++) {
+                        RCP<const Basic> b = S((int)rng.below(3));
+                        if (rng.coin(1, 6))
+                            b = add(b, S((int)rng.below(3)));
+                        RCP<const Basic> ex = integer(rng.range(1, 3));
+                        unsigned sp = rng.below(12);
+                        if (sp == 0)
+                            ex = integer(-1);
+                        else if (sp == 1)
+                            ex = Rational::from_two_ints(*integer(1), *integer(2));
+                        else if (sp == 2)
+                            ex = S((int)rng.below(3));
+                        else if (sp == 3)
+                            b = sin(b);
+                        m = mul(m, pow(b, ex));
+                    }
+                    terms.push_back(m);
+                }
+                try {
+                    pe = add(terms);
+                } catch (const std::exception &) {
+                    continue;
+                }
+            }
+            emit("poly " + vs + ") " + vsexp::dump(*pe), "polynomial");
+            continue;
+        }
+        const std::string &q = QUERIES[rng.below(17)];
+        if ((q == "even" || q == "odd") && tag != "trivial-logic" && rng.coin(2, 3)) {
+            // shapes with definite parity answers: c*x*y + d, numbers, 2*x - 1
+            try {
+                switch (rng.below(4)) {
+                    case 0:
+                        e = integer(rng.range(-9, 9));
+                        break;
+                    case 1:
+                        e = mul(integer(rng.range(-4, 4)), mul(S((int)rng.below(3)), S((int)rng.below(3))));
+                        break;
+                    case 2:
+                        e = add(mul(integer(2 * rng.range(-3, 3)), S((int)rng.below(3))), integer(rng.range(-2, 1)));
+                        break;
+                    default:
+                        e = mul(Rational::from_two_ints(*integer(rng.range(-6, 6)), *integer(rng.range(1, 3))),
+                                pow(S((int)rng.below(3)), integer(rng.range(1, 3))));
+                        break;
+                }
+                tag = "parity";
+            } catch (const std::exception &) {
+                continue;
+            }
+        }
         emit("q " + q + " " + dump_stmts(stmts) + " " + vsexp::dump(*e), tag + "-" + q);
     }
 }
